@@ -28,4 +28,5 @@ fi
 (cd /verif && VERIF_REPO=$WT VERIF_EVIDENCE_DIR=$OUT/evidence VERIF_REPLAY_DIR=$OUT/replays ./bin/timc check $P --tier $TIER > $OUT/check.log 2>&1); cr=$?
 res "check $P $TIER with change: exit $cr; $(grep -c '^VIOLATION' $OUT/check.log) VIOLATION lines"
 grep '^VIOLATION' -A1 $OUT/check.log | head -4 >> $OUT/verify.log
+rm -rf $OUT/replays $OUT/evidence
 git -C /repo worktree remove --force $WT
